@@ -97,7 +97,7 @@ func genKeys(r *rand.Rand, n int) []string {
 		keys = append(keys, fmt.Sprintf("key%03d", len(keys)))
 	}
 	if r.Intn(4) == 0 {
-		keys[len(keys)-1] = strings.Repeat("L", 300)
+		keys[len(keys)-1] = strings.Repeat("L", pick(r, 127, 128, 300, 16384))
 	}
 	return keys
 }
@@ -117,7 +117,7 @@ func genProgram(r *rand.Rand, nkeys, nops int, getFrac, delFrac int) []dbOp {
 		case x < getFrac+delFrac:
 			ops = append(ops, dbOp{Kind: "del", Key: k})
 		default:
-			ops = append(ops, dbOp{Kind: "put", Key: k, ValLen: pick(r, 1, 3, 10, 30, 80, 200, 600)})
+			ops = append(ops, dbOp{Kind: "put", Key: k, ValLen: pick(r, 1, 3, 10, 30, 80, 127, 128, 200, 600)})
 		}
 	}
 	return ops
